@@ -339,6 +339,12 @@ func drainUntilMarker(p *pair, ch <-chan delivery, l *ledger, caseTag string) st
 	}
 }
 
+// settleBeforeVerdict: a failed Read is a violation either way, but it can also be the first symptom of the process
+// dying (the library's datagram goroutine closes the read channel in a deferred call and THEN re-panics). Waiting here
+// does not decide anything; it only lets a dying process die while the case is still open, so that the finding is
+// reported under the stable key crash:<function> instead of racing between two keys.
+func settleBeforeVerdict() { time.Sleep(3 * time.Second) }
+
 func isTimeoutText(s string) bool {
 	s = strings.ToLower(s)
 	return strings.Contains(s, "timeout") || strings.Contains(s, "no recent network activity")
@@ -568,6 +574,7 @@ func runBadMix(c *vrun.Case, mk func(bool) (*pair, error), kind string) vrun.Res
 		return *v
 	}
 	if strings.HasPrefix(why, "read-error:") && !isTimeoutText(why) {
+		settleBeforeVerdict()
 		return vrun.Violation("after malformed datagrams the receiving transport's unreliable Read fails instead of the datagrams being discarded: "+why,
 			"transport-"+kind+":malformed:read-fails", map[string]any{"transport": kind, "read": why, "bad_datagrams_sent": bad})
 	}
@@ -655,6 +662,7 @@ func runShort(c *vrun.Case, mk func(bool) (*pair, error), kind string) vrun.Resu
 		return *v
 	}
 	if strings.HasPrefix(why, "read-error:") && !isTimeoutText(why) {
+		settleBeforeVerdict()
 		return vrun.Violation("after a datagram shorter than the header the receiving transport's unreliable Read fails instead of the datagram being discarded: "+why,
 			"transport-"+kind+":short-datagram:read-fails", map[string]any{"transport": kind, "len": n, "read": why})
 	}
